@@ -2,7 +2,8 @@
 //! `zlink_tokio::notified::State` and `zlink_smol::notified::State`, polled by hand.
 //!
 //! Line: `notif O <op>* => T <k>:<item>* ; S <k>:<item>*`  ops: `s<v>` set, `n` new subscriber,
-//! `p<k>` poll subscriber k once, `d<k>` drop subscriber k. items: `pend`, `i<v>:<0|1>` (value, continues), `end`.
+//! `p<k>` poll subscriber k once, `d<k>` drop subscriber k. items: `pend`, `i<v>:<0|1>` (value, continues), `end`;
+//! after a `set`, `<k>:woke|asleep` for every subscriber k whose last poll was pending (its waker must have fired).
 //! One-shot: `once <script> => T <items> ; S <items>` scripts over `P` poll, `N<v>` notify, `D` drop notifier.
 
 use crate::*;
@@ -19,6 +20,52 @@ fn noop_raw() -> RawWaker {
     RawWaker::new(core::ptr::null(), &VT)
 }
 fn waker() -> Waker { unsafe { Waker::from_raw(noop_raw()) } }
+
+/// A waker that records that it was used: one per subscriber, so that "a parked subscriber is woken by the
+/// next `set`" (without which a task awaiting the stream never sees the value) becomes an observation.
+struct Flag(std::sync::atomic::AtomicBool);
+impl std::task::Wake for Flag {
+    fn wake(self: std::sync::Arc<Self>) {
+        self.0.store(true, std::sync::atomic::Ordering::SeqCst);
+    }
+    fn wake_by_ref(self: &std::sync::Arc<Self>) {
+        self.0.store(true, std::sync::atomic::Ordering::SeqCst);
+    }
+}
+#[derive(Clone)]
+struct Sub {
+    flag: std::sync::Arc<Flag>,
+    parked: bool,
+}
+impl Sub {
+    fn new() -> Self {
+        Sub { flag: std::sync::Arc::new(Flag(std::sync::atomic::AtomicBool::new(false))), parked: false }
+    }
+}
+/// after a `set`: every subscriber whose last poll was pending must have been woken
+fn wake_report(meta: &mut [Option<Sub>], out: &mut Vec<String>) {
+    for (k, m) in meta.iter_mut().enumerate() {
+        if let Some(m) = m {
+            if m.parked {
+                let woke = m.flag.0.swap(false, std::sync::atomic::Ordering::SeqCst);
+                out.push(format!("{k}:{}", if woke { "woke" } else { "asleep" }));
+                m.parked = false;
+            }
+        }
+    }
+}
+fn poll_sub<S: Stream<Item = zlink_core::Reply<u32>> + Unpin>(s: &mut S, m: &mut Sub) -> String {
+    m.flag.0.store(false, std::sync::atomic::Ordering::SeqCst);
+    let w = Waker::from(m.flag.clone());
+    let mut cx = Context::from_waker(&w);
+    let r = match Pin::new(s).poll_next(&mut cx) {
+        Poll::Pending => "pend".to_string(),
+        Poll::Ready(None) => "end".into(),
+        Poll::Ready(Some(r)) => format!("i{}:{}", r.parameters().copied().unwrap_or(999_999), match r.continues() { Some(true) => "1", Some(false) => "0", None => "n" }),
+    };
+    m.parked = r == "pend";
+    r
+}
 
 fn poll_stream<S: Stream<Item = zlink_core::Reply<u32>> + Unpin>(s: &mut S) -> String {
     let w = waker();
@@ -48,13 +95,20 @@ pub enum Op { Set(u32), Sub, Poll(usize), Drop(usize) }
 fn run_tokio(ops: &[Op]) -> Vec<String> {
     let mut st = zlink_tokio::notified::State::<u32, u32>::new(0);
     let mut subs: Vec<Option<zlink_tokio::notified::Stream<u32>>> = vec![];
+    let mut meta: Vec<Option<Sub>> = vec![];
     let mut out = vec![];
     for op in ops {
         match op {
-            Op::Set(v) => block(st.set(*v)),
-            Op::Sub => subs.push(Some(st.stream())),
-            Op::Poll(k) => if let Some(Some(s)) = subs.get_mut(*k) { out.push(format!("{k}:{}", poll_stream(s))) },
-            Op::Drop(k) => if let Some(s) = subs.get_mut(*k) { *s = None },
+            Op::Set(v) => {
+                block(st.set(*v));
+                wake_report(&mut meta, &mut out);
+            }
+            Op::Sub => {
+                subs.push(Some(st.stream()));
+                meta.push(Some(Sub::new()));
+            }
+            Op::Poll(k) => if let (Some(Some(s)), Some(Some(m))) = (subs.get_mut(*k), meta.get_mut(*k)) { out.push(format!("{k}:{}", poll_sub(s, m))) },
+            Op::Drop(k) => if let Some(s) = subs.get_mut(*k) { *s = None; meta[*k] = None },
         }
     }
     out
@@ -62,13 +116,20 @@ fn run_tokio(ops: &[Op]) -> Vec<String> {
 fn run_smol(ops: &[Op]) -> Vec<String> {
     let mut st = zlink_smol::notified::State::<u32, u32>::new(0);
     let mut subs: Vec<Option<zlink_smol::notified::Stream<u32>>> = vec![];
+    let mut meta: Vec<Option<Sub>> = vec![];
     let mut out = vec![];
     for op in ops {
         match op {
-            Op::Set(v) => block(st.set(*v)),
-            Op::Sub => subs.push(Some(st.stream())),
-            Op::Poll(k) => if let Some(Some(s)) = subs.get_mut(*k) { out.push(format!("{k}:{}", poll_stream(s))) },
-            Op::Drop(k) => if let Some(s) = subs.get_mut(*k) { *s = None },
+            Op::Set(v) => {
+                block(st.set(*v));
+                wake_report(&mut meta, &mut out);
+            }
+            Op::Sub => {
+                subs.push(Some(st.stream()));
+                meta.push(Some(Sub::new()));
+            }
+            Op::Poll(k) => if let (Some(Some(s)), Some(Some(m))) = (subs.get_mut(*k), meta.get_mut(*k)) { out.push(format!("{k}:{}", poll_sub(s, m))) },
+            Op::Drop(k) => if let Some(s) = subs.get_mut(*k) { *s = None; meta[*k] = None },
         }
     }
     out
